@@ -64,8 +64,13 @@ func c16One(res *vlib.Result, si, enc, integ, ci, vc, life, ver, dir, tag int) {
 	case 2:
 		opts.ValidCommands = []int{443, 444}
 	}
-	if life == 1 {
+	switch life {
+	case 1:
 		opts.Lifetime = 60 * time.Second
+	case 2:
+		opts.Lifetime = 20 * 365 * 24 * time.Hour // expires after 2038-01-19 (beyond 2^31-1 seconds)
+	case 3:
+		opts.Lifetime = 100 * 365 * 24 * time.Hour
 	}
 	tg := ""
 	if tag == 1 {
@@ -120,6 +125,12 @@ func c16One(res *vlib.Result, si, enc, integ, ci, vc, life, ver, dir, tag int) {
 	}
 	if !me.Expiration().Equal(ie.Expiration()) {
 		res.Violate("C16/expiry-differs", "%s: minter %v importer %v", id, me.Expiration(), ie.Expiration())
+	}
+	if life >= 2 {
+		want := time.Duration([]int{0, 0, 20, 100}[life]) * 365 * 24 * time.Hour
+		if me.Expiration().IsZero() || time.Until(me.Expiration()) > want+time.Minute || time.Until(me.Expiration()) < want-time.Minute {
+			res.Violate("C16/expiry-wrong", "%s: lifetime %v but minter expiry %v", id, want, me.Expiration())
+		}
 	}
 	if life == 1 && (me.Expiration().IsZero() || time.Until(me.Expiration()) > 61*time.Second || time.Until(me.Expiration()) < 30*time.Second) {
 		res.Violate("C16/expiry-wrong", "%s: lifetime 60s but expiry %v", id, me.Expiration())
@@ -293,7 +304,7 @@ func c16History(res *vlib.Result, hist []string) {
 func C16Plan() *vlib.Plan {
 	p := &vlib.Plan{
 		Property: "C16", Level: "exploration",
-		Rule:   "E-ENUM full product: sinful in {plain, with params, with sock=, with embedded '#', bracketed IPv6} x Encryption/Integrity in {unset, true, false}^2 x cipher list in {'', AES, AESGCM, 'AES,BLOWFISH', 'AES,3DES,BLOWFISH'} x ValidCommands in {none, [443], [443,444]} x lifetime in {0, 60 s} x version in {'', long, short} x direction (importer dials / minter dials) x tag; each pair: cache entries compared (id, key, Encryption/Integrity/cipher/commands, expiry), public form searched for the secret, policy text render/parse fixed point, then a real resumption handshake (no negotiation on the wire) with ping/pong both ways. Plus every single-character alteration of the secret in both directions, and every history of <= 3 (thorough 4) imports into ONE importer cache over {intact id, id with the first / last secret character altered, intact id of a second claim}: whenever the last import of the claim is the intact id, key and expiry must equal the minter's and resumption must work both ways. Non-trivial = mint succeeded; ids distinct by construction.",
+		Rule:   "E-ENUM full product: sinful in {plain, with params, with sock=, with embedded '#', bracketed IPv6} x Encryption/Integrity in {unset, true, false}^2 x cipher list in {'', AES, AESGCM, 'AES,BLOWFISH', 'AES,3DES,BLOWFISH'} x ValidCommands in {none, [443], [443,444]} x lifetime in {0, 60 s, 20 years, 100 years (expiry beyond 2^31-1 s)} x version in {'', long, short} x direction (importer dials / minter dials) x tag; each pair: cache entries compared (id, key, Encryption/Integrity/cipher/commands, expiry), public form searched for the secret, policy text render/parse fixed point, then a real resumption handshake (no negotiation on the wire) with ping/pong both ways. Plus every single-character alteration of the secret in both directions, and every history of <= 3 (thorough 4) imports into ONE importer cache over {intact id, id with the first / last secret character altered, intact id of a second claim}: whenever the last import of the claim is the intact id, key and expiry must equal the minter's and resumption must work both ways. Non-trivial = mint succeeded; ids distinct by construction.",
 		Assume: []string{"peer caches are private per case (no process-global state involved)"},
 	}
 	p.Gen = func(tier string, yield func(vlib.Case)) {
@@ -311,9 +322,12 @@ func C16Plan() *vlib.Plan {
 						for enc := 0; enc < 3; enc++ {
 							for integ := 0; integ < 3; integ++ {
 								for vc := 0; vc < 3; vc++ {
-									for life := 0; life < 2; life++ {
+									for life := 0; life < 4; life++ {
 										for dir := 0; dir < 2; dir++ {
 											for tag := 0; tag < 2; tag++ {
+												if life >= 2 && (vc != 1 || tier != "thorough" && (enc != 0 || integ != 0)) {
+													continue
+												}
 												if tier != "thorough" && tag == 1 && (vc != 1 || life != 0) {
 													continue
 												}
